@@ -1,0 +1,12 @@
+//go:build verif
+
+package routing
+
+// Hook for the out-of-tree verification harness (build tag verif), add-only.
+
+// VerifWrapRouting replaces the Core's routing algorithm by wrap(current algorithm). The harness uses it
+// to hold a goroutine at Algorithm.NotifyNewBundle, i.e. inside Core.SendBundle before the bundle is
+// dispatched (schedule control for the AgentManager's handler).
+func (c *Core) VerifWrapRouting(wrap func(Algorithm) Algorithm) {
+	c.routing = wrap(c.routing)
+}
